@@ -29,7 +29,7 @@ class Ghost:
            "handler_calls", "bs_calls", "handler_calls_attempt", "sleeps_attempt", "bs_calls_attempt",
            "last_op_kind", "last_op_ident", "strat_fn", "strat_arg_attempt", "strat_arg_cls_ident",
            "last_retry_attempt", "term_exc", "last_exc_ident_fail", "hook_raise_count", "polls", "fail_count",
-           "last_cls_ident", "elapsed_reads", "handler_arg_ctx", "bs_arg_ctx", "strat_ctx_ident", "term_count_at_last_attempt"] + \
+           "last_cls_ident", "elapsed_reads", "fail_ident", "handler_arg_ctx", "bs_arg_ctx", "strat_ctx_ident", "term_count_at_last_attempt"] + \
           [f"ra_{k}" for k in CLASSES]
     REAL = ["slept_total", "now", "post_sleep_elapsed", "last_elapsed", "last_elapsed_t", "strat_arg_remaining",
             "last_sleep_arg", "last_retry_sleep", "term_sleep", "handler_arg_s", "bs_arg_s", "strat_arg_prev",
